@@ -39,6 +39,20 @@ CLAIMED = {
     "C17": dict(cat="exploration", tech="reference-model monitor, exhaustive over the 146097-day cycle x 7 weekdays at 13 cycle offsets",
                 text="weekday/yearday/next/prev_weekday compared with day-count arithmetic for every day of the Gregorian cycle, "
                      "replicated across the int64 year range.", note="trusts O-CAL", ref="3/C17"),
+    "C12": dict(cat="exploration", tech="sanitizers (ASan+UBSan fatal, asserts live) + per-case watchdog + determinism differential across pre-fill builds; memcheck and libFuzzer in the thorough tier",
+                text="Tens of thousands (thorough: millions) of structure-aware hostile inputs are loaded through the documented data-source "
+                     "extension point in an ASan/UBSan build under a supervisor that attributes every report, abort and hang to its input; the "
+                     "outcome digest must be identical for two loads in one process and across builds whose automatic variables are "
+                     "pre-filled with a pattern and with zero (observes reads of uninitialised locals); thorough adds valgrind memcheck and "
+                     "coverage-guided fuzzing.", note="red-zone tools miss intra-object overflows; MSan not used (uninstrumented libstdc++)", ref="3/C12"),
+    "C15": dict(cat="exploration", tech="reference-model monitor, exhaustive over the 180001 offsets; counting data-source factory",
+                text="Every offset in [-90000, 90000] is checked against a 15-line model of the statement (name, abbreviation, lookup, "
+                     "round trip through the name, no data-source access), and thousands of mutated names against the shape predicate.",
+                note="model in harness/fixedmon.cc", ref="3/C15"),
+    "C16": dict(cat="exploration", tech="differential monitor against an independent recursive-descent parser + pre-fill determinism + end-to-end footer loads",
+                text="Millions of grammar sentences, boundary values, single-edit mutants and random strings are parsed by the library and by "
+                     "O-POSIX; acceptance must agree both ways and every meaningful field must match and be independent of how the result "
+                     "struct was pre-filled.", note="NUL-containing strings are outside the domain", ref="3/C16"),
 }
 
 PENDING = {}
